@@ -52,6 +52,9 @@ func runC01(p *Prog, r *Report) {
 	if want("C01.10") {
 		ruleBaseLevel(p, r, "C01.10")
 	}
+	if want("C01.15") {
+		ruleSkipListSearch(p, r, "C01.15")
+	}
 	if want("C01.14") {
 		ruleRetrySnapshotsAreCopies(p, r, "C01.14")
 	}
